@@ -646,9 +646,72 @@ func bandScene(r *rand.Rand) (latgeo.LPath, latgeo.LPath) {
 	return p, q
 }
 
+// plateScene: one operand is a plate (outer rectangle) with 2-4 pairwise disjoint rectangular holes/islands listed in
+// random order and orientation (contours of ONE operand that touch a common "hub" contour but not each other); the
+// other operand is a small box inside a hole, across a hole's edge, across the plate's rim, or clear of the plate.
+// Plate coordinates are odd and box coordinates even, so nothing is degenerate.
+func plateScene(r *rand.Rand) (latgeo.LPath, latgeo.LPath) {
+	orient := func(ct latgeo.LContour) latgeo.LContour {
+		if r.Intn(2) == 0 {
+			return latgeo.LContour{ct[0], ct[3], ct[2], ct[1]}
+		}
+		return ct
+	}
+	rect := func(x0, y0, x1, y1 int) latgeo.LContour {
+		return latgeo.LContour{{x0, y0}, {x1, y0}, {x1, y1}, {x0, y1}}
+	}
+	p := latgeo.LPath{orient(rect(1, 1, 15, 15))}
+	// the plate's interior 3..13 is cut in four 5x5 quadrants; each chosen quadrant gets one hole
+	quads := r.Perm(4)[:2+r.Intn(3)]
+	var holes []latgeo.LContour
+	for _, qd := range quads {
+		ox, oy := 3+(qd%2)*6, 3+(qd/2)*6 // quadrant origin 3 or 9, extent 4
+		x0, y0 := ox+2*r.Intn(2), oy+2*r.Intn(2)
+		x1, y1 := x0+2, y0+2
+		if x0 == ox && r.Intn(2) == 0 {
+			x1 += 2
+		}
+		if y0 == oy && r.Intn(2) == 0 {
+			y1 += 2
+		}
+		holes = append(holes, rect(x0, y0, x1, y1))
+	}
+	for _, h := range holes {
+		p = append(p, orient(h))
+	}
+	if r.Intn(3) == 0 { // hub not first
+		i := 1 + r.Intn(len(p)-1)
+		p[0], p[i] = p[i], p[0]
+	}
+	var q latgeo.LPath
+	h := holes[r.Intn(len(holes))]
+	switch r.Intn(5) {
+	case 0: // clear of the plate
+		q = latgeo.LPath{orient(rect(16, 2*r.Intn(8), 20, 2*r.Intn(2)+16))}
+	case 1: // across the rim
+		y := 2 * (1 + r.Intn(6))
+		q = latgeo.LPath{orient(rect(0, y, 2, y+2))}
+	case 2: // across one hole's edge (even coordinates straddling the hole's left side)
+		q = latgeo.LPath{orient(rect(h[0][0]-1, h[0][1]-1, h[0][0]+1, h[0][1]+1))}
+	case 3: // strictly inside a hole when it is wide enough, else a small box clear of the plate
+		if h[2][0]-h[0][0] == 4 && h[2][1]-h[0][1] == 4 {
+			q = latgeo.LPath{orient(rect(h[0][0]+1, h[0][1]+1, h[0][0]+3, h[0][1]+3))}
+		} else {
+			q = latgeo.LPath{orient(rect(16, 16, 18, 18))}
+		}
+	default: // covering everything
+		q = latgeo.LPath{orient(rect(0, 0, 16+2*r.Intn(3), 16+2*r.Intn(3)))}
+	}
+	if r.Intn(2) == 0 {
+		return q, p
+	}
+	return p, q
+}
+
 func (d Driver) traces(c *core.Ctx) {
 	d.tracesN(c, sceneN, c.Pick(300, 6000), "scene", func(r *rand.Rand) (latgeo.LPath, latgeo.LPath) { return randScenePath(r), randScenePath(r) })
 	d.tracesN(c, bandN, c.Pick(24, 400), "bands", bandScene)
+	d.tracesN(c, bandN, c.Pick(40, 600), "plate", plateScene)
 }
 
 func (d Driver) tracesN(c *core.Ctx, latticeN, n int, space string, gen func(r *rand.Rand) (latgeo.LPath, latgeo.LPath)) {
@@ -666,7 +729,7 @@ func (d Driver) tracesN(c *core.Ctx, latticeN, n int, space string, gen func(r *
 		return
 	}
 	pts := latgeo.SamplePts(hdr.Samples, hdr.S, latgeo.Identity)
-	r := rand.New(rand.NewSource(c.Seed*104729 + int64(latticeN)))
+	r := rand.New(rand.NewSource(c.Seed*104729 + int64(latticeN) + int64(hash(space))))
 	var evs []sceneEv
 	var buf bytes.Buffer
 	enc := json.NewEncoder(&buf)
